@@ -197,6 +197,7 @@ func c11Canon(ids []uint64) []uint64 {
 type c11Outcome struct {
 	fail  *explore.Fail
 	class string
+	execs int64 // dials made (part shuffle-distribution)
 }
 
 func c11FoldGrease16(v uint16) uint16 {
@@ -204,6 +205,14 @@ func c11FoldGrease16(v uint16) uint16 {
 		return 0x0a0a
 	}
 	return v
+}
+
+// c11ServerName is the host the dial-th dial of a configuration names in its tls.Config.
+func c11ServerName(dial int) string {
+	if dial <= 1 {
+		return "server.verif"
+	}
+	return fmt.Sprintf("host%d.verif", dial)
 }
 
 type c11DummyConn struct{ net.Conn }
@@ -289,7 +298,11 @@ func c11Run(t *testing.T, cfg c11Config) c11Outcome {
 					}
 				})
 			}
-			fl = sim.CaptureFlight(w, d, cconf, 300*time.Millisecond)
+			// every dial names its own host: what one dial writes into the shared spec value (uTLS
+			// fills in an empty server_name extension) must not be what the next dial sends
+			tlsConf := w.ClientTLS()
+			tlsConf.ServerName = c11ServerName(dial)
+			fl = sim.CaptureFlightTLS(w, d, tlsConf, cconf, 300*time.Millisecond)
 			d.Close()
 			w.CloseEndpoints()
 		})
@@ -339,6 +352,13 @@ func c11Run(t *testing.T, cfg c11Config) c11Outcome {
 		if err != nil {
 			fail("tp-unreadable", "%v", err)
 			break
+		}
+		// server_name: uTLS puts the dial's tls.Config.ServerName into an SNI extension the spec left empty
+		if sni, ok := ch.Extension(0x0000); ok && len(sni.Data) >= 5 {
+			if name := string(sni.Data[5:]); name != c11ServerName(dial) {
+				fail("sni-of-another-dial", "the ClientHello names %q, this dial's tls.Config.ServerName is %q (one spec value reused by all dials)", name, c11ServerName(dial))
+				break
+			}
 		}
 		scid := obs[0].Pkt.SCID
 		needExpect()
@@ -701,5 +721,5 @@ func TestVerifC11(t *testing.T) {
 		}
 		return &explore.Violation{Key: o.fail.Key, What: o.fail.What}
 	}
-	explore.Main("C11", []explore.Part{wirePart, fpPart}, func(msg string) { t.Fatal(msg) })
+	explore.Main("C11", []explore.Part{wirePart, fpPart, c11DistPart(t)}, func(msg string) { t.Fatal(msg) })
 }
